@@ -118,6 +118,11 @@ def build_world(tmpdir, small=False):
         ["chromosome", "start", "end", "gene"],
     )
     W["ga2"] = GA.from_rows([("chr1", 40, 70), ("chr1", 65, 66), ("chr1", 190, 300), ("chr3", 0, 5)], ["chromosome", "start", "end"])
+    # overlapping regions on opposite strands (merge / flatten combine the strand column; writers add what a format needs)
+    W["ga_s"] = GA.from_rows(
+        [("chr1", 0, 100, "a", "+"), ("chr1", 50, 150, "b", "-"), ("chr1", 200, 300, "c", "+"), ("chr1", 250, 260, "d", "+"), ("chr2", 5, 9, "e", "-")],
+        ["chromosome", "start", "end", "gene", "strand"],
+    )
     W["filters_ci_cn"] = ["ci", "cn"]
     W["filters_sem_ampdel"] = ["sem", "ampdel"]
     W["ignore"] = ["-", ".", "CGH"]
@@ -144,6 +149,18 @@ def world_fp(W):
 # the operation alphabet
 def _seg(method, procs=1, **kw):
     return lambda W: segmentation.do_segmentation(W["cnr"], method, processes=procs, **kw)
+
+
+def _written(W, key, fmt):
+    """tabio.write of a shared table: the bytes written (the scratch file is removed again, the listing stays the same)."""
+    path = os.path.join(os.path.dirname(W["cns_file"]), "written.out")
+    try:
+        tabio.write(W[key], path, fmt)
+        with open(path) as f:
+            return f.read()
+    finally:
+        if os.path.exists(path):
+            os.unlink(path)
 
 
 def _center(est, **kw):
@@ -215,6 +232,13 @@ OPS = {
     "ga-subdivide": lambda W: W["ga1"].subdivide(30, 5),
     "ga-resize": lambda W: W["ga1"].resize_ranges(20, W["chrom_sizes"]),
     "ga-into-ranges": lambda W: W["ga1"].into_ranges(W["ga2"], "gene", "-"),
+    "ga-merge-stranded": lambda W: W["ga_s"].merge(stranded=True),
+    "ga-merge-s": lambda W: W["ga_s"].merge(),
+    "ga-flatten-s": lambda W: W["ga_s"].flatten(),
+    "write-interval": lambda W: _written(W, "ga_s", "interval"),
+    "write-bed": lambda W: _written(W, "ga_s", "bed"),
+    "write-text": lambda W: _written(W, "ga1", "text"),
+    "write-tab": lambda W: _written(W, "cns", "tab"),
     "by-arm": lambda W: [(c, a) for c, a in W["cnr"].by_arm()],
     "by-gene": lambda W: [(g, a) for g, a in W["cnr"].by_gene(W["ignore"])],
     "squash-genes": lambda W: W["cnr"].squash_genes(ignore=W["ignore"]),
@@ -231,7 +255,7 @@ CORE = [o for o in OP_NAMES if o not in HEAVY]
 STATEFUL = [
     "call-filters-ci-cn", "call-filters-sem-ampdel", "by-gene", "squash-genes", "gene-intervals", "fix-all", "segmetrics-all",
     "segment-hmm", "segment-haar-p2", "segment-none-skiplow", "genemetrics-seg", "bintest", "export-vcf-cnarr", "center-median",
-    "ga-flatten", "target",
+    "ga-flatten", "target", "ga-merge-stranded", "ga-merge-s", "write-interval",
 ]
 RNG_STATES = ("seed0", "seed12345", "seed0+17")
 
@@ -629,7 +653,7 @@ def run_writers(case, ctx):
 
 
 MANIFEST = {
-    "text": "Explicit-state search over call histories on one shared world of argument objects (62 operations covering the "
+    "text": "Explicit-state search over call histories on one shared world of argument objects (69 operations covering the "
     "pipeline steps and array methods the property names): every history of length 1 (x3 global RNG states) and 2, plus "
     "3- and 4-step histories over the most stateful operations, each replayed from a pristine forked process; after every "
     "step the fingerprint of all arguments and files must be unchanged and the result must equal the operation's first-call "
